@@ -22,6 +22,8 @@ import (
 
 	"raven/internal/conf"
 	"raven/internal/db"
+	"raven/internal/delivery/parser"
+	"raven/internal/delivery/storage"
 	"raven/internal/models"
 	"raven/internal/sasl"
 	"raven/internal/server/auth"
@@ -197,22 +199,68 @@ func c04UserRow(w *World, id int64) interface{} {
 
 // c04Provision creates a user row before the attempt: "uninit" =
 // admin-provisioned (password_initialized = false), "disabled" = enabled = 0.
-func c04Provision(w *World, mode, local, domain string) {
+// c04Deliver delivers one message to rcpt through the delivery service's
+// storage layer (creates the account the way LMTP does on first delivery).
+var c04msgSeq int
+
+func c04Deliver(w *World, rcpt string) error {
+	c04msgSeq++
+	raw := fmt.Sprintf("From: sender@x.test\r\nTo: %s\r\nSubject: c04\r\nMessage-ID: <c04-%d-%d@x.test>\r\n\r\nhello %d\r\n",
+		rcpt, os.Getpid(), c04msgSeq, c04msgSeq)
+	msg, err := parser.ParseMessage(strings.NewReader(raw))
+	if err != nil {
+		return err
+	}
+	return storage.NewStorage(w.mgr).DeliverMessage(rcpt, msg, "INBOX")
+}
+
+// c04Provision puts an account into a given state before the attempt:
+//
+//	uninit        admin-provisioned (db.CreateUser: password_initialized = false)
+//	disabled      admin-provisioned, then enabled = 0
+//	existing      logged in / created before (initialised, enabled, store exists)
+//	disabled_init an existing, initialised account the operator disabled (enabled = 0)
+//	lmtp          created earlier by a mail delivery
+//	reenabled     disabled and enabled again
+func c04Provision(w *World, mode, local, domain string) string {
 	if mode == "" || mode == "none" {
-		return
+		return ""
 	}
 	sh := w.mgr.GetSharedDB()
+	if mode == "lmtp" {
+		if err := c04Deliver(w, local+"@"+domain); err != nil {
+			return err.Error()
+		}
+		return ""
+	}
 	did, err := db.GetOrCreateDomain(sh, domain)
 	if err != nil {
-		return
+		return err.Error()
 	}
-	uid, err := db.CreateUser(sh, local, did)
+	var uid int64
+	switch mode {
+	case "uninit", "disabled":
+		uid, err = db.CreateUser(sh, local, did)
+	default:
+		uid, err = db.GetOrCreateUserInitialized(sh, local, did)
+		if err == nil {
+			_, err = w.mgr.GetUserDB(uid)
+		}
+	}
 	if err != nil {
-		return
+		return err.Error()
 	}
-	if mode == "disabled" {
+	switch mode {
+	case "disabled", "disabled_init":
+		_, err = sh.Exec("UPDATE users SET enabled = 0 WHERE id = ?", uid)
+	case "reenabled":
 		_, _ = sh.Exec("UPDATE users SET enabled = 0 WHERE id = ?", uid)
+		_, err = sh.Exec("UPDATE users SET enabled = 1 WHERE id = ?", uid)
 	}
+	if err != nil {
+		return err.Error()
+	}
+	return ""
 }
 
 func c04Cases(op Op) []Op {
@@ -251,9 +299,20 @@ func init() {
 	register("c04_direct", func(w *World, op Op) Obs {
 		a := c04Get()
 		var rs []interface{}
+		// the world is prepared first, so that the logins of other accounts lie
+		// between an account's creation and its own login
+		var setupErrs []string
+		if l, ok := op["setup"].([]interface{}); ok {
+			for _, e := range l {
+				m, _ := e.(map[string]interface{})
+				so := Op(m)
+				if msg := c04Provision(w, so.str("prov"), so.str("prov_local"), so.str("prov_domain")); msg != "" {
+					setupErrs = append(setupErrs, so.str("prov")+" "+so.str("prov_local")+": "+msg)
+				}
+			}
+		}
 		for _, c := range c04Cases(op) {
 			dom := c04Cfg(w, c.str("domain"), c.boolean("dead"))
-			c04Provision(w, c.str("prov"), c.str("prov_local"), c.str("prov_domain"))
 			a.set(c.str("beh"))
 			conn := &bufConn{}
 			st := &models.ClientState{}
@@ -276,7 +335,92 @@ func init() {
 			}
 			rs = append(rs, r)
 		}
-		return Obs{"rs": rs}
+		return Obs{"rs": rs, "setup_errors": setupErrs}
+	})
+
+	// concurrent first logins of one brand-new account on k sessions (and,
+	// with "lmtp", racing the first delivery to it), repeated for "rounds"
+	// accounts; "warm" accounts are created before so that every pooled
+	// connection of shared.db has inserted other users' rows
+	register("c04_race", func(w *World, op Op) Obs {
+		a := c04Get()
+		dom := c04Cfg(w, op.str("domain"), false)
+		a.set("200")
+		k := op.num("k", 3)
+		login := func(u string) map[string]interface{} {
+			conn := &bufConn{}
+			st := &models.ClientState{}
+			r := map[string]interface{}{}
+			func() {
+				defer func() {
+					if e := recover(); e != nil {
+						r["panic"] = fmt.Sprint(e)
+					}
+				}()
+				auth.VerifAuthenticateUser(w.imap, conn, "T", u, "pw", st)
+			}()
+			r["wrote"] = bs(conn.buf.String())
+			r["authed"] = st.Authenticated
+			r["username"] = bs(st.Username)
+			if st.Authenticated {
+				r["row"] = c04UserRow(w, st.UserID)
+			}
+			return r
+		}
+		// warm-up: concurrent logins of distinct accounts (opens several pooled connections)
+		for i := 0; i < op.num("warm", 2); i++ {
+			var wg sync.WaitGroup
+			for j := 0; j < k; j++ {
+				wg.Add(1)
+				go func(i, j int) {
+					defer wg.Done()
+					login(fmt.Sprintf("warm%d_%d_%s", i, j, op.str("prefix")))
+				}(i, j)
+			}
+			wg.Wait()
+		}
+		var rounds []interface{}
+		for r := 0; r < op.num("rounds", 10); r++ {
+			u := fmt.Sprintf("%s%d", op.str("prefix"), r)
+			if op.boolean("full_address") {
+				u += "@" + dom
+			}
+			start := make(chan struct{})
+			res := make([]map[string]interface{}, k)
+			var wg sync.WaitGroup
+			for j := 0; j < k; j++ {
+				wg.Add(1)
+				go func(j int) {
+					defer wg.Done()
+					<-start
+					res[j] = login(u)
+				}(j)
+			}
+			deliverErr := ""
+			if op.boolean("lmtp") {
+				wg.Add(1)
+				go func() {
+					defer wg.Done()
+					<-start
+					rcpt := u
+					if !strings.Contains(rcpt, "@") {
+						rcpt += "@" + dom
+					}
+					if err := c04Deliver(w, rcpt); err != nil {
+						deliverErr = err.Error()
+					}
+				}()
+			}
+			close(start)
+			wg.Wait()
+			out := make([]interface{}, k)
+			for j := range res {
+				out[j] = res[j]
+			}
+			rounds = append(rounds, map[string]interface{}{"u": bs(u), "sessions": out, "deliver_error": deliverErr})
+		}
+		a.take()
+		return Obs{"cfg_domain": bs(dom), "rounds": rounds}
 	})
 
 	// pure identity split
